@@ -241,6 +241,10 @@ fn main() {
 	log::set_max_level(log::LevelFilter::Debug);
 	std::panic::set_hook(Box::new(|info| {
 		let loc = info.location().map(|l| format!("{}:{}", l.file(), l.line())).unwrap_or_default();
+		if std::env::var("PIPESIM_BT").is_ok() {
+			let bt = std::backtrace::Backtrace::force_capture();
+			simdisk::muted(|| eprintln!("PANIC {info}\n{bt}"));
+		}
 		if let Ok(mut s) = LAST_PANIC.lock() {
 			*s = loc;
 		}
